@@ -168,6 +168,16 @@ def rule_revalidation(ctx: Ctx):
     # tokenizer decides overlaps on the tokens, not on raw pattern matches)
     if on is not None:
         hits = {norm(c_.func.value) for c_ in walk_local(on) if isinstance(c_, ast.Call) and isinstance(c_.func, ast.Attribute) and c_.func.attr in ("append", "add")}
+        # ... and the callback records every hit it is given: no path through it skips the recording (a hit dropped for its length, its position or
+        # its pattern id is a candidate the reference tokenizer still reports)
+        from ..paths import enumerate_paths
+        rec = [s_ for s_ in stmts_local(on.body) if isinstance(s_, ast.Expr) and isinstance(s_.value, ast.Call) and isinstance(s_.value.func, ast.Attribute)
+               and s_.value.func.attr in ("append", "add")]
+        skipping = [p_ for p_ in enumerate_paths(on.body) if p_.exit in ("fall", "return") and not any(ev_[0] == "stmt" and ev_[1] in rec for ev_ in p_.events)]
+        conds = sorted({norm(ev_[1])[:50] for p_ in skipping for ev_ in p_.events if ev_[0] == "cond"})
+        ctx.ob("R-C14-1", f"{q}/callback-records-every-hit", bool(rec) and not skipping,
+               f"every path through the scan callback records the hit ({len(skipping)} path(s) return without recording; conditions on them: {conds})",
+               node=(skipping[0].exit_node if skipping and skipping[0].exit_node is not None else on), mod=tm)
         for H in sorted(hits):
             binds = [s_ for s_ in stmts_local(fn.body) if isinstance(s_, (ast.Assign, ast.AnnAssign, ast.AugAssign)) and H in assigned_names(s_)]
             shrinks = [c_ for c_ in walk_local(fn) if isinstance(c_, ast.Call) and isinstance(c_.func, ast.Attribute) and norm(c_.func.value) == H
